@@ -9,8 +9,9 @@ EXTENDS Wire, SequencesExt, Json, TLC, Randomization
 Ka == <<97>>                 \* "a"
 KB == <<65,45,98>>           \* "A-b"
 Vals == { <<>>, <<98>>, <<79,75>>, <<108,105,115,116,95,79,75>>, <<65,67,75,32,91,49,64,48,93,32,123,125,32,120>>,
-          <<98,105,110,97,114,121,58,32,51>>, <<195,169>> }          \* "", b, OK, list_OK, "ACK [1@0] {} x", "binary: 3", e-acute
-ValsFew == { <<>>, <<79,75>>, <<195,169>> }
+          <<98,105,110,97,114,121,58,32,51>>, <<195,169>>,           \* "", b, OK, list_OK, "ACK [1@0] {} x", "binary: 3", e-acute
+          <<98,13>>, <<13>>, <<97,13,98>>, <<9,32>>, <<1,127>>, <<0>>, <<32,98,32>>, <<240,159,142,181>> }   \* CR at the end / alone / inside, TAB+blank, control bytes, NUL, blanks around, 4-byte UTF-8
+ValsFew == { <<>>, <<79,75>>, <<195,169>>, <<98,13>> }
 Pays == { <<>>, <<10>>, <<79,75,10>>, <<0,255>>, <<97,58,32,98,10>> }
 Errs == { << <<53>>, <<48>>, <<>>, <<120>> >>,                                     \* ACK [5@0] {} x
           << <<53,48>>, <<49>>, <<112,108,97,121>>, <<110,111,32,115,117,99,104,32,115,111,110,103>> >>,   \* ACK [50@1] {play} no such song
